@@ -6,7 +6,7 @@ from checklib import *
 PROPS = {
   'C01': {'families': [('chess', 400, 24000), ('edges', 1, 200000), ('proc', 8, 12)]},
   'C02': {'families': [('chess', 400, 24000)]},
-  'C03': {'families': [('chess', 400, 24000)]},
+  'C03': {'families': [('chess', 400, 24000), ('order', 300, 20000)]},
   'C09': {'families': [('chess', 400, 24000), ('hashdiff', 300, 30000)]},
   'C10': {'families': [('chess', 400, 24000), ('edges', 1, 200000)]},
   'C11': {'families': [('chess', 300, 12000), ('fenfuzz', 6000, 1000000)]},
@@ -17,7 +17,7 @@ PROPS = {
   'C13': {'families': [('search', 120, 6000), ('deep', 60, 8000)]},
   'C06': {'families': [('conc', 150, 8000), ('dialog', 100, 4000), ('proc', 12, 300)]},
   'C07': {'families': [('go', 4000, 400000), ('dialog', 150, 6000), ('proc', 10, 200)]},
-  'C08': {'families': [('time', 5000, 1000000)]},
+  'C08': {'families': [('time', 5000, 1000000), ('gotime', 1500, 100000)]},
   'C14': {'families': [('tt', 3000, 300000)]},
   'C15': {'families': [('eval', 3000, 300000)]},
   'C16': {'families': [('evalc', 1000, 60000), ('eval', 500, 20000), ('ecache', 2000, 200000)]},
